@@ -21,9 +21,14 @@ Proof. reflexivity. Qed.
 
 (* a report is `single` when its bytes lead to an accepting terminal state whose item is the
    event it denotes *)
+(* the event of an accepting state: the item, or Raw of the bytes when the payload decoder
+   returns None (decoder.rs:264-269 and TTYEventDecoder::decode) *)
+Definition item_event (o : option tev) (w : list N) : tev :=
+  match o with Some e => e | None => ERaw w end.
+
 Definition single_bytes (w : list N) (ev : tev) : Prop :=
   w <> [] /\ exists q, prod_run w = Some q /\ d_accepting event_dfa q = true
-                       /\ d_terminal event_dfa q = true /\ prod_item q w = Some ev.
+                       /\ d_terminal event_dfa q = true /\ item_event (prod_item q w) w = ev.
 
 Theorem decode_single w ev rest :
   single_bytes w ev ->
@@ -33,7 +38,8 @@ Proof.
   unfold prod_decode, ev_decode, ev_munch.
   rewrite (munch_terminal N tev (d_start event_dfa) (d_delta event_dfa) (d_accepting event_dfa)
              (d_terminal event_dfa) _ event_term_dead w q rest Hne Hrun Hacc Hterm).
-  cbn [fst snd map]. unfold mk_tok. fold prod_item. rewrite Hitem. reflexivity.
+  cbn [fst snd map]. unfold mk_tok. fold prod_item. rewrite <- Hitem.
+  destruct (prod_item q w); reflexivity.
 Qed.
 
 Definition single (r : report) : Prop := single_bytes (print r) (prod_denote r).
@@ -78,9 +84,22 @@ Proof.
   split; [rewrite prod_run_from; exact Hr|]. split; [exact Ha|]. split; [exact Ht|].
   unfold prod_item, ev_item. destruct (d_tag event_dfa q) as [[[|] i]|]; try discriminate.
   apply N.eqb_eq in Htag. destruct (nth_error event_matcher_ids (N.to_nat i)) as [id'|] eqn:E.
-  - rewrite (nth_error_nth _ _ 999 E) in Htag. subst id'. exact Hp.
+  - rewrite (nth_error_nth _ _ 999 E) in Htag. subst id'. rewrite Hp. reflexivity.
   - rewrite (nth_overflow _ 999) in Htag by (apply nth_error_None, E).
     subst id. cbn in Hp. discriminate.
+Qed.
+
+Lemma fam_single_raw p id w :
+  family_check event_dfa p (fam_good id) = true -> matches p w -> w <> [] ->
+  ev_payload decmode_codes decstatus_codes id w = None ->
+  single_bytes w (ERaw w).
+Proof.
+  intros Hc Hm Hne Hp. destruct (family_check_sound event_dfa p (fam_good id) w Hc Hm) as (q & Hr & Hg).
+  split; [exact Hne|]. exists q. unfold fam_good in Hg. rewrite !andb_true_iff in Hg. destruct Hg as [[Ha Ht] Htag].
+  split; [rewrite prod_run_from; exact Hr|]. split; [exact Ha|]. split; [exact Ht|].
+  unfold prod_item, ev_item. destruct (d_tag event_dfa q) as [[[|] i]|]; try discriminate.
+  apply N.eqb_eq in Htag. destruct (nth_error event_matcher_ids (N.to_nat i)) as [id'|] eqn:E; [|reflexivity].
+  rewrite (nth_error_nth _ _ 999 E) in Htag. subst id'. rewrite Hp. reflexivity.
 Qed.
 
 (* ---- the literal key table ---- *)
@@ -97,8 +116,9 @@ Proof. destruct a, b; cbn; try discriminate; try reflexivity; intros H; apply N.
 
 Definition lit_entry_ok (e : list N * (kname * N)) : bool :=
   let w := fst e in
-  negb (self_delimiting w)
+  bare_prefix w
   || (negb (match w with [] => true | _ => false end)
+      && self_delimiting w
       && match prod_run w with
          | Some q => match prod_item q w with
                      | Some (EKey k m) => kname_eqb k (fst (snd e)) && (m =? snd (snd e))
@@ -127,13 +147,13 @@ Qed.
 
 (* every self-delimiting sequence of the library's key table decodes to the key the table names *)
 Theorem single_literal w :
-  lit_lookup prod_key_table w <> None -> self_delimiting w = true -> single (RLit w).
+  lit_lookup prod_key_table w <> None -> bare_prefix w = false -> single (RLit w).
 Proof.
-  intros Hl Hsd. destruct (lit_lookup prod_key_table w) as [[k m]|] eqn:E; [|contradiction].
+  intros Hl Hbp. destruct (lit_lookup prod_key_table w) as [[k m]|] eqn:E; [|contradiction].
   pose proof (lit_lookup_In _ _ _ E) as Hin.
   pose proof lit_table_ok as H. rewrite forallb_forall in H. specialize (H _ Hin).
-  unfold lit_entry_ok in H. cbn [fst snd] in H. rewrite Hsd in H. cbn [negb orb] in H.
-  apply andb_true_iff in H. destruct H as [Hne H].
+  unfold lit_entry_ok in H. cbn [fst snd] in H. rewrite Hbp in H. cbn [orb] in H.
+  rewrite !andb_true_iff in H. destruct H as [[Hne Hsd] H].
   unfold single, single_bytes, prod_denote, denote. cbn [print]. rewrite E.
   split; [destruct w; [discriminate| discriminate]|].
   unfold self_delimiting in Hsd. destruct (prod_run w) as [q|]; [|discriminate].
@@ -141,6 +161,12 @@ Proof.
   exists q. split; [reflexivity|]. split; [exact Ha|]. split; [exact Ht|].
   destruct (prod_item q w) as [[k' m'| | | | | | | | | | | | | ]|]; try discriminate.
   apply andb_true_iff in H. destruct H as [Hk Hm]. apply kname_eqb_eq in Hk. apply N.eqb_eq in Hm. subst. reflexivity.
+Qed.
+
+(* a single report leaves the automaton in a terminal accepting state *)
+Lemma single_self_delimiting r : single r -> self_delimiting (print r) = true.
+Proof.
+  intros (_ & q & Hr & Ha & Ht & _). unfold self_delimiting. rewrite Hr, Ha, Ht. reflexivity.
 Qed.
 
 (* xterm / fixterms modifier convention, checked on the whole table: CSI <n> ; <m> <final> names
@@ -175,4 +201,10 @@ Proof. vm_compute. reflexivity. Qed.
 Lemma decmode_table_ok :
   forallb (fun m => existsb (N.eqb m) decmode_codes) decmode_all = true
   /\ forallb (fun s => existsb (N.eqb s) decstatus_codes) decstatus_all = true.
+Proof. split; vm_compute; reflexivity. Qed.
+
+(* ... and the numbers are the documented ones, variant by variant *)
+Lemma decmode_names_ok :
+  named_tables_agree decmode_named xterm_decmodes = true
+  /\ named_tables_agree decstatus_named decrpm_statuses = true.
 Proof. split; vm_compute; reflexivity. Qed.
